@@ -38,11 +38,12 @@ func (m *JCModel) Distance(seq1 []uint8, seq2 []uint8, weights []float64) (float
 	} else {
 		dist = -.75 * math.Log(b)
 	}
-	if dist > 0 {
+	// A saturated pair gives NaN (log or power of a negative number):
+	// it must stay undefined, not become a distance of 0
+	if dist > 0 || math.IsNaN(dist) {
 		return dist, nil
-	} else {
-		return 0, nil
 	}
+	return 0, nil
 }
 
 func (m *JCModel) InitModel(al align.Alignment, weights []float64, gamma bool, alpha float64) (err error) {
